@@ -12,7 +12,9 @@ NREGS = 4           # callbacks are 1..5 in every trace; 5 is the one a script m
 EXTRA = NREGS + 1
 
 PATTERNS = [(3, 255, 0, 0), (3, 255, 1, 255), (2, 2, 0, 0), (0, 0, 0, 0), (255, 255, 0, 0),
-            (5, 255, 2, 2), (9, 255, 3, 255), (1, 1, 1, 1)]
+            (5, 255, 2, 2), (9, 255, 3, 255), (1, 1, 1, 1),
+            # patterns with bits outside their own mask: never match (pattern == header & mask)
+            (5, 4, 0, 0), (13, 255, 3, 0), (7, 0xF0, 1, 2)]
 SCRIPTS = [('nop', 0), ('raise', 0), ('removeSelf', 0), ('addExtra', 0)] + \
           [('remove', w) for w in range(1, NREGS + 1)]
 
@@ -83,15 +85,26 @@ def execute(sc, mutant=None):
         style = sc.get('style', 'func')
         exc_kind = sc.get('exc', 0)
 
+        share = list(sc.get('share') or [])      # two registrations that use ONE callback object
+
         def who(callback):
             holder = getattr(callback, '__self__', None)
             if holder is not None and id(holder) in ours:
                 return ours[id(holder)]
             return ours.get(id(callback))
 
+        def who_entry(c):
+            w = who(c.callback)
+            if w is not None and w in share:
+                for x in share:
+                    p = sc['pat'][x - 1]
+                    if (c.port, c.port_mask, c.channel, c.channel_mask) == (p[0], p[1], p[2], p[3]):
+                        return x
+            return w
+
         def project():
             try:
-                return [who(c.callback) for c in cf.incoming.cb if who(c.callback) is not None]
+                return [who_entry(c) for c in cf.incoming.cb if who_entry(c) is not None]
             except Exception:
                 return None
 
@@ -117,6 +130,8 @@ def execute(sc, mutant=None):
 
         def the_cb(w):
             # 'method': a new bound-method object on every access, like `self._new_packet_cb`
+            if w in share:
+                w = share[0]              # both registrations hand in the same callback
             return holders[w].cb if style == 'method' else cbs[w]
 
         def register(w):
@@ -157,6 +172,18 @@ def execute(sc, mutant=None):
 
         for w in range(1, EXTRA + 1):
             cbs[w] = make(w)
+        if share:
+            # one callback for both registrations: the k-th time it is invoked for a packet it acts for the
+            # k-th of its registrations (in list order, as found when the packet arrived) that match
+            acts = {x: cbs[x] for x in share}
+            turn = []
+            state['turn'] = turn
+
+            def shared(pk):
+                w = turn.pop(0) if turn else share[0]
+                return acts[w](pk)
+            cbs[share[0]] = shared
+        for w in range(1, EXTRA + 1):
             ours[id(cbs[w])] = w
             holders[w] = Holder(cbs[w])
             ours[id(holders[w])] = w
@@ -165,6 +192,12 @@ def execute(sc, mutant=None):
 
         def begin(pk):
             state['in_packet'] = True
+            if share:
+                del state['turn'][:]
+                for c in cf.incoming.cb:
+                    if who(c.callback) in share and c.port == (pk.port & c.port_mask) and \
+                            c.channel == (pk.channel & c.channel_mask):
+                        state['turn'].append(who_entry(c))
             ev.append({'e': 'begin', 'h': pk.header})
         cf.packet_received.add_callback(begin)
 
@@ -188,7 +221,7 @@ def execute(sc, mutant=None):
             e['cbs'] = []
     return {'pat': [list(p) for p in sc['pat']], 'script': [list(x) for x in sc['script']],
             'regs0': list(sc['regs0']), 'npackets': n, 'ev': [_norm(e) for e in ev],
-            'style': style, 'exc': exc_kind,
+            'style': style, 'exc': exc_kind, 'share': share,
             'alive': alive and not dead, 'delivered': delivered}
 
 
@@ -221,6 +254,9 @@ def _mutant_run(variant):
                 if variant == 'live':
                     it = (cb for cb in inc.cb if cb.port == (pk.port & cb.port_mask) and
                           cb.channel == (pk.channel & cb.channel_mask))
+                elif variant == 'mask_both_sides':
+                    it = [cb for cb in inc.cb if (cb.port & cb.port_mask) == (pk.port & cb.port_mask) and
+                          (cb.channel & cb.channel_mask) == (pk.channel & cb.channel_mask)]
                 elif variant == 'eqmask':
                     it = [cb for cb in inc.cb if cb.port == pk.port and
                           cb.channel == (pk.channel & cb.channel_mask)]
@@ -253,9 +289,20 @@ def _mutant_remove_by_identity(cf):
     inc.remove_header_callback = remove_header_callback
 
 
-MUTANTS = {'live': _mutant_run('live'), 'eqmask': _mutant_run('eqmask'),
+def _mutant_remove_ignores_masks(cf):
+    inc = cf.incoming
+
+    def remove_header_callback(cb, port, channel, port_mask=0xFF, channel_mask=0xFF):
+        for port_callback in inc.cb:
+            if port_callback.port == port and port_callback.channel == channel and port_callback.callback == cb:
+                inc.cb.remove(port_callback)
+    inc.remove_header_callback = remove_header_callback
+
+
+MUTANTS = {'remove_ignores_masks': _mutant_remove_ignores_masks, 'live': _mutant_run('live'), 'eqmask': _mutant_run('eqmask'),
            'abort_on_exc': _mutant_run('abort_on_exc'), 'first_only': _mutant_run('first_only'),
            'handler_needs_exc_args': _mutant_run('handler_needs_exc_args'),
+           'mask_both_sides': _mutant_run('mask_both_sides'),
            'remove_by_identity': _mutant_remove_by_identity}
 
 
@@ -294,7 +341,16 @@ def scenarios_enumerated(tier, rng):
         sa = [rng.choice(SCRIPTS) for _ in range(NREGS)] + [rng.choice([('nop', 0), ('removeSelf', 0)])]
         regs0 = rng.sample([1, 2, 3, 4], rng.randint(1, 4))
         hs = [rng.randrange(256) & 0xF3 for _ in range(3)]
-        out.append({'pat': pa, 'script': sa, 'regs0': regs0, 'headers': hs})
+        sc = {'pat': pa, 'script': sa, 'regs0': regs0, 'headers': hs}
+        if k % 4 == 0:
+            # a service that listens with two registrations of ONE callback: same port and channel,
+            # different masks (e.g. a port callback and a header callback)
+            a, b = rng.sample([1, 2, 3, 4], 2)
+            pa[b - 1] = (pa[a - 1][0], pa[a - 1][1], pa[a - 1][2], pa[a - 1][3] ^ rng.choice([1, 2, 3]))
+            sc['share'] = [a, b]
+            # make sure some packets match both
+            hs[0] = ((pa[a - 1][0] & 0x0F) << 4 | (pa[a - 1][2] & 3)) & 0xF3
+        out.append(sc)
     return out
 
 
